@@ -1,5 +1,6 @@
 (** C01 — property theorems (kernels of the evaluator; the language SPEC is Sem). *)
 From Coq Require Import List ZArith NArith Bool Arith Permutation.
+From JrV Require Sem.Syntax Sem.Interp Sem.Mono.
 From JrV Require Import C01.Model C01.Proofs.
 Import ListNotations.
 
@@ -61,3 +62,14 @@ Proof.
   - repeat constructor; cbn; intuition discriminate.
   - intros i Hi. destruct i as [|[|[|i]]]; cbn; try discriminate. exfalso. inversion Hi as [|? H1]. inversion H1 as [|? H2]. inversion H2 as [|? H3]. inversion H3.
 Qed.
+
+(** Sem, the whole-language SPEC of C01 (and, through its trace log, of C03): an outcome that is not
+    "out of fuel" - value or error class, and the log of labelled evaluations - does not depend on
+    the fuel.  The FUEL constant of the correspondence checks therefore selects which programs are
+    judged (the others are skipped and counted), never what the judgement is. *)
+Theorem C01_sem_fuel_independent :
+  forall n m e, n <= m ->
+    fst (JrV.Sem.Interp.run n e) <> JrV.Sem.Interp.OErr JrV.Sem.Interp.KFuel ->
+    JrV.Sem.Interp.run m e = JrV.Sem.Interp.run n e.
+Proof. exact JrV.Sem.Mono.run_fuel_independent. Qed.
+Print Assumptions C01_sem_fuel_independent.
